@@ -29,15 +29,15 @@ import subprocess
 HOOKS = [l.split()[0] for l in subprocess.run(['git','-C','/repo','log','--format=%H %s'],capture_output=True,text=True).stdout.splitlines() if l.split(' ',1)[1].startswith('hook:')]
 TEXT = {
  "C01": "Every decode / render / Debug / velocity-computation / pairing / tracker-update call of ~110 K (quick) inputs is recorded with its outcome and allocation and judged by TLC (Trace_Decode.Totality, Trace_Pair, Trace_Tracker): DF x length grid 0..32, every value of every <=13-bit field in every carrier, extremes, boundary CPR pairs, polar/antimeridian receivers, range limits 0..19000 km. Exhaustive per field, sampled across fields; 'never' over 2^112 frames is not proved.",
- "C02": "Frame!Accepts (TLA+) is evaluated by TLC on every recorded buffer: all 32 format codes x lengths 0..32, every frame shape (format x payload variant) at length-1 / exact / with tails (tail events must project like the frame before them), the full 2^9 grid of type-31 reserved bits x version x subtype x DF17/18, truncations. MC_Reader checks OkIffLongEnough/NoOverread on the reader model.",
+ "C02": "Frame!Accepts (TLA+) is evaluated by TLC on every recorded buffer: all 32 format codes x lengths 0..32, every frame shape (format x payload variant) at length-1 / exact / with tails (tail events must project like the frame before them), the full 2^9 grid of type-31 reserved bits x version x subtype x DF17/18, truncations. MC_Reader checks OkIffLongEnough/NoOverread on the reader model. Level I: DekuBits (TLC) - deku's bit machine and the read program of each of 647 frame shapes deliver every field from the bits the grammar assigns (repaired defects D1/D2/D4 as deviations must fail); the predicted read/seek calls are compared with the real decoder's for every shape (drift only).",
  "C03": "The checksum of every recorded frame is compared by TLC with bitwise polynomial division in TLA+ (Crc!Checksum): sweeps that read out every table entry at every byte position, random and valid frames of every format, 1.5 K (quick) / 60 K (thorough) corruptions. Step D: MC_Crc explores 234 249 states and shows on the specification that no error pattern of weight <= 5 in 112 bits has syndrome 0, plus bursts and linearity - which with the conformance of the implementation's checksum gives the detection claim.",
- "C04": "Header and address fields of every recorded frame are compared with Bits!Field extraction at the Annex 10 offsets: every value of every header field x every payload type, walking-one over every frame shape; all 2^24 addresses are rendered and parsed back by the recorder (oracle-free equation, count and samples judged by TLC).",
+ "C04": "Header and address fields of every recorded frame are compared with Bits!Field extraction at the Annex 10 offsets: every value of every header field x every payload type, walking-one over every frame shape; all 2^24 addresses are rendered and parsed back by the recorder (oracle-free equation, count and samples judged by TLC). Level I: DekuBits (TLC) - deku's bit machine and the read program of each of 647 frame shapes deliver every field from the bits the grammar assigns (repaired defects D1/D2/D4 as deviations must fail); the predicted read/seek calls are compared with the real decoder's for every shape (drift only).",
  "C05": "CPR!GlobalDecode in exact integer arithmetic (TLA+) judges 29 K (quick) / 1.1 M (thorough) recorded pairings within 3 micro-degrees: encoded true positions, displacements, poles, equator, antimeridian, NL transitions, raw/boundary/rounding-tie quadruples, both orders; the longitude-zone count is walked over all 3.9 M + 3.9 M reachable latitudes with the change points judged by TLC. Step D: MC_CPR round trip on 34 992 states; NL thresholds recomputed from the closed form.",
  "C06": "Exhaustive: all 8192 13-bit codes in DF0/4/16/20 and all 4096 12-bit codes in each of the 13 type codes are decoded by the real code and compared by TLC with ModeAC!AC13/AC12 written from the Gray-code definition. Step D: MC_ModeAC (8192 states) shows the Gillham map is a bijection onto -1200..126700 ft with the Gray property.",
  "C07": "All raw velocity fields (every code) and the derived velocity are judged by TLC: components and vertical rate exactly, ground speed by an integer-square-root bracket, track by the fixed-point sine/cosine relation (no inverse functions). Quick: lattice of components; thorough: all 2^22 combinations of direction bits and components.",
  "C08": "Every 6-bit code at every one of the 8 positions, all pairs of positions, padded and random strings in both carriers (type 1-4, BDS 2,0), all type/category values; TLC compares with the Annex 10 character set (Frame!Chars8, CallsignOK).",
  "C09": "Exhaustive: all 8192 identity codes in DF5, DF21 and type 28 compared by TLC with ModeAC!Identity; all subtype/emergency pairs. Step D: MC_ModeAC shows the de-interleaving is a bijection onto four octal digits and ignores X.",
- "C10": "Every interpreted payload field (surface/airborne position, target state, operational status airborne/surface, BDS 1,0) is swept (all values up to 12 bits, boundary/walking/random beyond) under DF17, DF18 x 8 control-field types and DF20/21 and compared by TLC with the DO-260B / ICAO 9871 offsets and scalings in Frame.tla; dispatch grid over type code x subtype and all first MB bytes.",
+ "C10": "Every interpreted payload field (surface/airborne position, target state, operational status airborne/surface, BDS 1,0) is swept (all values up to 12 bits, boundary/walking/random beyond) under DF17, DF18 x 8 control-field types and DF20/21 and compared by TLC with the DO-260B / ICAO 9871 offsets and scalings in Frame.tla; dispatch grid over type code x subtype and all first MB bytes. Level I: DekuBits (TLC) - deku's bit machine and the read program of each of 647 frame shapes deliver every field from the bits the grammar assigns (repaired defects D1/D2/D4 as deviations must fail); the predicted read/seek calls are compared with the real decoder's for every shape (drift only).",
  "C11": "The text of ~8 K (quick) recorded frames, including a generator that takes each branch condition of the renderer both ways, is compared line by line by TLC with Render.tla (per-type templates instantiated with the contract's decoded values; float tokens numerically; printed heading via trig relation).",
  "C12": "MC_Tracker (TLC, 564 K states quick / 2.4 M + 6.4 M random-walk states thorough) checks CountExact, AddedIffNew, Isolation, OnlyExpiryShrinks on the tracking rules of Tracker.tla; one concretised history per distinct model state (6 K quick / 40 K thorough) and random histories are run through the real Airplanes and every step is judged from the observed pre-state by Trace_Tracker, which instantiates the same rules.",
  "C13": "Same models and recordings as C12; Trace_Tracker instantiates Tracker!PosUpd with CPR!GlobalDecode and Geo (fixed-point haversine in verification direction, 5 m tolerance, 25 m guard band at the range and 100 km thresholds); threshold flights along meridians/equator hit both sides of each limit within tens of metres.",
